@@ -88,7 +88,7 @@ Section Flags.
         * apply (K (g vals) (set_settled s2 i (g vals))). simpl. exact Hd.
         * apply R. exact Hd.
         * exact I.
-    - simpl. apply R. reflexivity.
+    - simpl. exact (R (set_await st i true) eq_refl).
   Qed.
 End Flags.
 
